@@ -57,6 +57,10 @@ NEEDS = {
  "C26-2": "persisted reclaimable interned value whose slot was reused before serialization (generation > 0) and is reused again after the restore",
  "C13-2": "two cycle_result cycles sharing a node, entered through the outer one; every member read; a write breaks only the outer cycle; request into the inner cycle",
 }
+NOTES = {
+ "C18-2": "reported by C12 (16 of 16 workers, seeded/results/batch12-*.txt) until repair 46dd83e (provisional callee treated as changed); on the repaired tree the change no longer breaks the property: its own demonstration seeded_C18_2.rs passes with the patch applied",
+ "C08-2": "documented miss: needs a Vec field interned through a slice with colliding hashes; the harness has no such item",
+}
 res = {}
 order = sorted(glob.glob(os.path.join(R, "seeded/results/*.txt")), key=lambda f: [int(x) if x.isdigit() else x for x in re.split(r"(\d+)", os.path.basename(f))])
 for f in order:
@@ -92,6 +96,8 @@ for d in sorted(glob.glob(os.path.join(R, "seeded/C*-*"))):
         "detail": {k: {"workers_reporting_violation": v, "first_rule": t, "result_file": f} for k, (v, t, f) in sorted(r.items()) if v > 0},
         "checked_without_detection": sorted(k for k, (v, _, _) in r.items() if v == 0),
     }
+    if name in NOTES:
+        meta["note"] = NOTES[name]
     json.dump(meta, open(os.path.join(d, "meta.json"), "w"), indent=1)
     rows.append((name, prop, caught, meta["needs_to_manifest"]))
 with open(os.path.join(R, "seeded/INDEX.md"), "w") as f:
